@@ -392,6 +392,10 @@ class VM:
 
         elif op == OpCode.STORE_NAME:
             name = frame.func.constants[arg]
+            if name not in self.globals:
+                # strict mode: no implicit globals (declared names exist
+                # before the program starts, see run())
+                raise JSReferenceError(f"{name} is not defined")
             self.globals[name] = self.stack[-1]
 
         elif op == OpCode.LOAD_CLOSURE:
